@@ -223,6 +223,7 @@ pub fn property() -> Property {
         id: "C14",
         cases,
         clauses: &["truthful-after-termination", "truthful-before-termination"],
+        full_rerun_check: true,
         assumptions: &["termination = the step in which the actor task ends (its stop notifier has fired or been dropped by then)"],
     }
 }
